@@ -164,6 +164,9 @@ type c20Batch struct {
 	CurMax     uint    `json:"current_max_operation_count"`
 	OwnMax     uint    `json:"own_version_max_operation_count"`
 	Err        string  `json:"error,omitempty"`
+	// F16: the handler returned no anchor string (every operation of the batch has expired): nothing is anchored, the
+	// batch is committed; Time / Num stay 0
+	NoAnchor bool `json:"no_anchor_string,omitempty"`
 }
 
 type c20Handler struct {
@@ -202,6 +205,17 @@ func (h *c20Handler) PrepareTxnFiles(ops []*operation.QueuedOperation) (*protoco
 			b.Included = append(b.Included, id)
 		}
 	}
+	b.NoAnchor = info.AnchorString == ""
+	if b.NoAnchor != (len(b.Included) == 0) {
+		h.w.internal = append(h.w.internal, fmt.Sprintf("PrepareTxnFiles: anchor string %q for a batch with %d included operations (removed %v, expired %v, additional %v)",
+			info.AnchorString, len(b.Included), b.Removed, b.Expired, b.Additional))
+	}
+	if b.NoAnchor {
+		// no WriteAnchor may follow: the ledger stub reports "anchor without prepared batch" if one does
+		h.w.prepared = nil
+		h.w.noAnchor = append(h.w.noAnchor, b)
+		return info, nil
+	}
 	h.w.prepared = b
 	return info, nil
 }
@@ -223,7 +237,12 @@ func (l *c20Ledger) WriteAnchor(anchor string, _ []*protocol.AnchorDocument, _ [
 	b := l.w.prepared
 	l.w.prepared = nil
 	if b == nil {
+		l.w.internal = append(l.w.internal, fmt.Sprintf("WriteAnchor(%q) without a prepared batch that has included operations", anchor))
 		return errors.New("c20 ledger: anchor without prepared batch")
+	}
+	var cnt int
+	if _, e := fmt.Sscanf(anchor, "%d.", &cnt); e != nil || cnt != len(b.Included) || cnt == 0 {
+		l.w.internal = append(l.w.internal, fmt.Sprintf("WriteAnchor(%q): operation count %d, included operations %v", anchor, cnt, b.Included))
 	}
 	b.Time, b.Num = t.TransactionTime, t.TransactionNumber
 	l.w.batches = append(l.w.batches, b)
@@ -368,6 +387,8 @@ type c20World struct {
 	prepared *c20Batch
 	batches  []*c20Batch
 	failed   []*c20Batch
+	noAnchor []*c20Batch // batches committed without an anchor write (every operation expired, F16)
+	internal []string    // violations seen inside the collaborators
 	expired  []int64
 	txnPver  map[uint64]uint64
 	inForce  bool
